@@ -26,7 +26,7 @@ FCHANS_T = FCHANS_Q + [128, 255, 1000, 1024, 4096]
 TCHANS = [1, 2, 3, 16, 17]
 TCHANS_T = TCHANS + [5, 32, 100]
 ROUTES = ['explicit', 'shape', 'data', 'from_data']
-STYLES = ['plain', 'hz_s', 'mhz_ms', 'ghz', 'pixel']
+STYLES = ['plain', 'hz_s', 'mhz_ms', 'ghz', 'pixel', 'negdf']
 
 
 def _mk_frame(c):
@@ -38,6 +38,10 @@ def _mk_frame(c):
     exp = {}  # exact expected values of df/dt/fch1 in Hz/s
     if style == 'plain' or style == 'pixel':
         a_df, a_dt, a_fch1 = df, dt, fch1
+        exp = dict(df=F(df), dt=F(dt), fch1=F(fch1))
+    elif style == 'negdf':
+        # the channel width handed over with the sign of a filterbank header's foff: the constructor takes its magnitude
+        a_df, a_dt, a_fch1 = -df, dt, fch1
         exp = dict(df=F(df), dt=F(dt), fch1=F(fch1))
     elif style == 'hz_s':
         a_df, a_dt, a_fch1 = df * u.Hz, dt * u.s, fch1 * u.Hz
@@ -352,7 +356,7 @@ def run(ctx):
     cases = []
     for n, m, df, dt, fch1, asc in _box(ctx.tier):
         for route in ROUTES:
-            styles = STYLES if route == 'explicit' else (['plain', 'mhz_ms'] if ctx.tier == 'thorough' else ['plain'])
+            styles = STYLES if route == 'explicit' else (['plain', 'mhz_ms', 'negdf'] if ctx.tier == 'thorough' else (['plain', 'negdf'] if route == 'from_data' else ['plain']))
             for style in styles:
                 if style == 'pixel' and route != 'explicit':
                     continue
